@@ -109,6 +109,7 @@ func runC17(c *Ctx) {
 			}
 		}
 	}
+	c17Loaders(c, "C17.2")
 	if fn := c.fn("C17.2", "schema", "(*Schema).Validate"); fn != nil {
 		ok := false
 		for _, er := range c.exprReturns(fn) {
@@ -268,5 +269,66 @@ func runC17(c *Ctx) {
 			r.Check("C17.3", "contents-errflow:"+d, msg == "", c.pos(call), "annotation error returned"+ifMsg(msg))
 		}
 		r.Check("C17.3", "contents-scope", specLevel && devLevel, c.U.Pos(vcf.Pos()), "the content check covers the Spec's annotations and every device's annotations")
+	}
+}
+
+// c17Loaders: what each entry point hands to validate() is the caller's document itself -
+// an in-memory object as a Go loader of that object (not of a copy decoded into generic
+// maps, where every number is a float64), and validate's verdict is returned as it is.
+func c17Loaders(c *Ctx, rule string) {
+	r := c.R
+	if vt := c.fn(rule, "schema", "(*Schema).ValidateType"); vt != nil {
+		ok := false
+		var found []string
+		for _, call := range ir.Calls(vt) {
+			if f := call.Common().StaticCallee(); f != nil && f.String() == "github.com/xeipuuv/gojsonschema.NewGoLoader" {
+				d := normExpr(vt, []string{c.exprDesc(call.Common().Args[0])})[0]
+				found = append(found, d)
+				ok = d == "$1"
+			}
+		}
+		r.Check(rule, "ValidateType:loader", ok && len(found) == 1, c.U.Pos(vt.Pos()), fmt.Sprintf("ValidateType validates the object it was given (Go loader of %v; a copy decoded into map[string]interface{} would round every integer to float64)", found))
+	}
+	for _, name := range []string{"ValidateData", "ValidateType"} {
+		fn := c.U.Func("schema", "(*Schema)."+name)
+		if fn == nil {
+			continue
+		}
+		for _, call := range c.callsTo(fn, false, "schema", "(*Schema).validate") {
+			// on the branch where validate reported an error, that very error is returned
+			okSame := false
+			v := call.Value()
+			for _, iff := range ir.Ifs(fn) {
+				tv, nilSucc, isNil := ir.NilTest(iff)
+				if !isNil || tv != v {
+					continue
+				}
+				bad := ir.Edge{From: iff.Block(), Succ: 1 - nilSucc}
+				okSame = true
+				n := 0
+				ir.EnumPaths(fn, &bad, false, func(p ir.BlockPath, end ssa.Instruction) {
+					ret, isRet := end.(*ssa.Return)
+					if !isRet {
+						return
+					}
+					n++
+					if ir.ResolveOnPath(ir.ReturnResult(ret, 0), p) != v {
+						okSame = false
+					}
+				})
+				if n == 0 {
+					okSame = false
+				}
+			}
+			if !okSame {
+				// `return s.validate(l)`
+				for _, ret := range ir.NormalReturns(fn) {
+					if ir.ReturnResult(ret, 0) == v {
+						okSame = true
+					}
+				}
+			}
+			r.Check(rule, "verdict-unchanged:"+name, okSame, c.pos(call), name+" returns the schema verdict of validate() unchanged (not filtered, not merged with other findings)")
+		}
 	}
 }
